@@ -342,6 +342,27 @@ func (e *eng) afterNotify(t *txnS) string {
 			} else if e.mainTxns[h.owner] && changed(h.key, 0) {
 				h.mustClose = true
 			}
+		// handles taken INSIDE an earlier (committed and notified, main-chain) transaction: what that transaction
+		// itself did after the hand-out is mechanism level (9.3: an in-place write of a node the transaction owns
+		// keeps the channel), but the node stays on the search path in the committed tree, so every LATER
+		// transaction that changes the key / a key under the prefix / anything must close the channel
+		// (Part/TxnHandles.v; seeded change S3-C12-3 orphaned such a channel on a promotion)
+		case "intxn-get":
+			if h.owner != t.serial && e.mainTxns[h.owner] && changed(h.key, 0) {
+				h.mustClose = true
+			}
+		case "intxn-pfx":
+			if h.owner != t.serial && e.mainTxns[h.owner] {
+				for _, c := range t.changes {
+					if bytes.HasPrefix(c.key, h.key) {
+						h.mustClose = true
+					}
+				}
+			}
+		case "intxn-root":
+			if h.owner != t.serial && e.mainTxns[h.owner] && len(t.changes) > 0 {
+				h.mustClose = true
+			}
 		}
 	}
 	e.mainTxns[t.serial] = true
